@@ -4,7 +4,11 @@ From Nexus Require Export Router.Broker.
 
 Record registration := mkReg {
   reg_id : N; reg_proc : string; reg_match : string; reg_policy : string;
-  reg_disclose : bool; reg_fwd_timeout : bool; reg_next : N; reg_callees : list N }.
+  reg_disclose : list N;   (* the callees that asked for disclosure of the caller (and were allowed to): per callee *)
+  reg_fwd_timeout : bool; reg_next : N; reg_callees : list N }.
+
+(** does callee [sid] of registration [r] get the caller's identity because it asked for it at REGISTER *)
+Definition reg_discloses (r : registration) (sid : N) : bool := nmem sid (reg_disclose r).
 
 Definition callid := (N * N)%type.     (* (session id, request id) *)
 
@@ -89,7 +93,7 @@ Definition register (cfg : config) (d : dealer) (callee : session) (req : N) (op
         match match sget (d_map d k) proc with Some id => nget (d_regs d) id | None => None end with
         | None =>
             let id := idgen_next (d_idgen d) in
-            let r := mkReg id proc m invoke disclose fwd 0 [sid] in
+            let r := mkReg id proc m invoke (if disclose then [sid] else []) fwd 0 [sid] in
             let d1 := d_set_idgen d id in
             let d2 := d_set_regs d1 (nset (d_regs d1) id r) in
             let d3 := d_set_map d2 k (sset (d_map d2 k) proc id) in
@@ -102,7 +106,8 @@ Definition register (cfg : config) (d : dealer) (callee : session) (req : N) (op
                || negb (String.eqb (reg_policy r) invoke) || nmem sid (reg_callees r) then
               (d, [(sid, RError c_REGISTER req [] e_procedure_exists [] [])], [])
             else
-              let r' := mkReg (reg_id r) (reg_proc r) (reg_match r) (reg_policy r) (reg_disclose r)
+              let r' := mkReg (reg_id r) (reg_proc r) (reg_match r) (reg_policy r)
+                              (if disclose then reg_disclose r ++ [sid] else reg_disclose r)
                               (reg_fwd_timeout r) (reg_next r) (reg_callees r ++ [sid]) in
               let d1 := d_set_regs d (nset (d_regs d) (reg_id r) r') in
               let d2 := d_set_callee_regs d1 (callee_add_reg (d_callee_regs d1) sid (reg_id r)) in
@@ -125,7 +130,7 @@ Definition del_callee_reg (d : dealer) (sid regid : N) : dealer * option bool :=
             let k := mkind_of (reg_match r) in
             (d_set_map d1 k (sdel (d_map d1 k) (reg_proc r)), Some true)
         | _ =>
-            let r' := mkReg (reg_id r) (reg_proc r) (reg_match r) (reg_policy r) (reg_disclose r)
+            let r' := mkReg (reg_id r) (reg_proc r) (reg_match r) (reg_policy r) (nremove1 sid (reg_disclose r))
                             (reg_fwd_timeout r) (reg_next r) cs in
             (d_set_regs d (nset (d_regs d) regid r'), Some false)
         end
@@ -394,11 +399,11 @@ Definition call (cfg : config) (lookup : N -> option session) (now : N) (d : dea
                           let det0 := if ppt_active opts then ppt_into opts [("progress", VBool in_progress)]
                                       else [("progress", VBool in_progress)] in
                           let disclose_me := opt_bool opts "disclose_me" in
-                          if negb (reg_disclose r) && disclose_me && negb (c_disclose cfg) then
+                          if negb (reg_discloses r callee_id) && disclose_me && negb (c_disclose cfg) then
                             CallRefused d0 [(csid, RError c_CALL req [] e_disclose_me [] [])]
                           else
                             let det1 :=
-                              if reg_disclose r then disclose_dict "caller" csid (s_details caller) det0
+                              if reg_discloses r callee_id then disclose_dict "caller" csid (s_details caller) det0
                               else if disclose_me && sess_feature callee "callee" f_caller_ident
                                    then disclose_dict "caller" csid (s_details caller) det0 else det0 in
                             let det2 :=
